@@ -1,12 +1,13 @@
 (** * Tie G2 (loops): cleanupNewRing REGENERATED from snap.go on every run (gen/CleanupRingGen.v) is the model's
       [cleanupNewRing] (Snap/Model.v) for every ring: the closing vertex removed before spike removal, the loop that
       removes it again afterwards (the model's structural [trimClosing]), both "fewer than 3 vertices" exits.
-      kmpDeduplicate and asPointOrLine are the regenerated ones; [splitRing] is the MODEL's, its arguments
-      (hitMultiple, ringIdx) being the model's predicate [isMulti] — splitRing itself is not tied to the source. *)
+      kmpDeduplicate, asPointOrLine and splitRing are the regenerated ones (gen_splitRing of gen/SplitWalkGen.v, equal
+      to the model's by Snap/ProofsGenSplitWalk.v); the arguments (hitMultiple, ringIdx) of splitRing are the model's
+      predicate [isMulti]. *)
 From Coq Require Import ZArith List Bool Lia.
 From Texel Require Import Prelude.Base Prelude.GoLoop Index.Model Snap.Model Snap.ProofsKmpSearch
-  Snap.ProofsGenSmall Snap.ProofsGenKmpDedup.
-From Texel.Gen Require Import KmpDedupGen SnapSmallGen CleanupRingGen.
+  Snap.ProofsGenSmall Snap.ProofsGenKmpDedup Snap.ProofsGenSplitWalk.
+From Texel.Gen Require Import KmpDedupGen SnapSmallGen SplitWalkGen CleanupRingGen.
 Import ListNotations.
 Open Scope Z_scope.
 
@@ -103,7 +104,7 @@ Proof.
           match out with
           | Ret r => Ok r
           | Next (nr, nl) => if nl <? 3 then do t7 <- gen_asPointOrLine nr; Ok (mkSets [] [] t7)
-                             else do t8 <- splitRing nr isOuter isMulti; Ok t8
+                             else do t8 <- gen_splitRing nr isOuter isMulti; Ok t8
           end)
     = (if (length r1 <? 3)%nat then Ok (mkSets [] [] (asPointOrLine r1))
        else do r2' <- kmpDeduplicate r1;
@@ -112,7 +113,8 @@ Proof.
   { intro r1. rewrite ltb3. destruct (length r1 <? 3)%nat; [rewrite gen_asPointOrLine_spec; reflexivity |].
     rewrite gen_kmpDeduplicate_spec. destruct (kmpDeduplicate r1) as [r2' | e]; cbn [bind]; [| reflexivity].
     rewrite gen_trim_loop by lia. cbn [bind]. rewrite ltb3.
-    destruct (length (trimClosing r2') <? 3)%nat; [rewrite gen_asPointOrLine_spec; reflexivity | apply bind_Ok_id]. }
+    destruct (length (trimClosing r2') <? 3)%nat;
+      [rewrite gen_asPointOrLine_spec; reflexivity | rewrite gen_splitRing_spec; apply bind_Ok_id]. }
   destruct (closes newRing) eqn:Ec.
   - rewrite slice_all_but_last by (apply closes_ne; exact Ec). cbn [bind].
     pose proof (removelast_length newRing (closes_ne _ Ec)) as Hl.
